@@ -1079,7 +1079,12 @@ class AbsExec:
         elif k == 'if':
             self._exec_if(st, frame, depth)
         elif k == 'block':
-            self.exec_block(st.body, frame, depth)
+            try:
+                self.exec_block(st.body, frame, depth)
+            except _Leave as l:
+                # LEAVE of this block's own label ends the block (the guard-clause spelling of IF .. ELSE <rest> END IF)
+                if not getattr(st, 'label', None) or l.label != st.label.lower():
+                    raise
         elif k in ('loop', 'while'):
             self._exec_loop(st, frame, depth)
         elif k == 'leave':
@@ -1335,8 +1340,11 @@ class AbsExec:
             sub.vars[pname.lower()] = self.value_or_unk(arg, frame) if mode != 'OUT' else None
         try:
             self.exec_block(a.body, sub, depth + 1)
-        except _Leave:
-            raise AnalysisError(f'{r.name}: LEAVE escapes the routine body')
+        except _Leave as l:
+            # every labelled block / loop inside the body has had its chance: the label is that of the routine's outermost BEGIN .. END
+            # (the parser keeps only its statements), so the LEAVE ends the routine - provided the body has such a label at all
+            if not _body_label(r, l.label):
+                raise AnalysisError(f'{r.name}: LEAVE {l.label} escapes the routine body')
         for (mode, pname, _), arg in zip(a.params, st.args):
             if mode != 'IN' and arg.kind in ('col', 'uvar'):
                 self._assign(arg, sub.vars.get(pname.lower(), UNK), frame)
@@ -1350,9 +1358,24 @@ class AbsExec:
             self.exec_block(r.ast.body, fr, 0)
         except _Abort:
             return 'aborted'
-        except _Leave:
-            raise AnalysisError(f'{name}: LEAVE escapes the routine body')
+        except _Leave as l:
+            if not _body_label(r, l.label):
+                raise AnalysisError(f'{name}: LEAVE {l.label} escapes the routine body')
         return 'done'
+
+
+def _body_label(r: sf.Routine, label: str) -> bool:
+    """Is `label` the label of the routine's outermost block (`CREATE PROCEDURE p(..) label: BEGIN .. END`)?  Decided on the token stream of the
+    routine text: `label :` immediately followed by BEGIN, before any other BEGIN."""
+    from .sqlast import tokenize
+    try:
+        toks = tokenize(r.sql)
+    except Exception:
+        return False
+    for i, t in enumerate(toks):
+        if t.kind == 'ident' and getattr(t, 'up', t.text.upper()) == 'BEGIN':
+            return i >= 2 and toks[i - 1].text == ':' and toks[i - 2].kind == 'ident' and toks[i - 2].text.lower() == label.lower()
+    return False
 
 
 def _has_agg(e: N) -> bool:
